@@ -373,6 +373,20 @@ class LoopMixin:
     # ------------------------------------------------------------------
     def ex_For(self, s, st: State):
         out = []
+        it_expr = s.iter
+        if (isinstance(it_expr, ast.Call) and isinstance(it_expr.func, ast.Name) and it_expr.func.id == "enumerate"
+                and len(it_expr.args) == 1 and not it_expr.keywords and "enumerate" not in st.store):
+            # for i, x in enumerate(xs): the pairs (index, xs[index]) over the list xs
+            for s2, it in self.ev_top(it_expr.args[0], st):
+                if isinstance(it, Raised):
+                    out.append(self._raise(s2, it))
+                    continue
+                it = self.unbox(self.reify(it) if isinstance(it.t, TConst) else it, s2)
+                if not isinstance(it.t, TList) or it.t.elem is None:
+                    raise EngineError(f"enumerate over {it.t!r}")
+                lspec, key = self.find_loop_spec(s, s2)
+                out.extend(self.cut_seq(s, s2, it, lspec, key, enumerated=True))
+            return out
         for s2, it in self.ev_top(s.iter, st):
             if isinstance(it, Raised):
                 out.append(self._raise(s2, it))
@@ -463,7 +477,7 @@ class LoopMixin:
         keys, has = d.extra["keys"], d.extra["has"]
         st.assume(z3.ForAll([i], z3.Implies(z3.And(i >= 0, i < z3.Length(keys)), z3.Select(has, keys[i]))))
 
-    def cut_seq(self, s, st: State, seq: SV, lspec, key, items_of=None):
+    def cut_seq(self, s, st: State, seq: SV, lspec, key, items_of=None, enumerated=False):
         iname, sname = self.loop_var_names(s)
         st.store[sname] = seq
         st.store[iname] = SV(INT, z3.IntVal(0))
@@ -482,6 +496,8 @@ class LoopMixin:
             dname = "_dict_" + iname[3:]
             st.store[dname] = items_of
             bind = ast.parse(f"__t = ({sname}[{iname}], {dname}[{sname}[{iname}]])\n{iname} += 1").body
+        elif enumerated:
+            bind = ast.parse(f"__t = ({iname}, {sname}[{iname}])\n{iname} += 1").body
         else:
             bind = ast.parse(f"__t = {sname}[{iname}]\n{iname} += 1").body
         bind[0].targets = [s.target]
